@@ -27,7 +27,8 @@ let c15_addr (s : string) =
     if s.[0] = '4' && String.length h = 8 then LA4 (n_of_hexstr h)
     else if s.[0] = '6' && String.length h = 32 then LA6 (n_of_hexstr h)
     else failwith ("bad addr " ^ s)
-  | _ -> if s = "none" then LANone else failwith ("bad addr " ^ s)
+  | _ -> if String.length s >= 4 && String.sub s 0 4 = "none" then LANone   (* none, none2, ...: peers without an address *)
+         else failwith ("bad addr " ^ s)
 let c15_fmt_addr a : string =
   match a with LA4 x -> "4-" ^ hex_of_n 8 x | LA6 x -> "6-" ^ hex_of_n 32 x | LANone -> "none"
 
@@ -265,9 +266,10 @@ let run_admit (parts : string list) : string =
     | OAccepted -> "ACCEPT" | OConnClosed -> "CLOSED" | OAnswered -> "ANS" | ORefused -> "REFUSED"
     | O503 -> "503" | OStreamClosed -> "SCLOSED" | OBadRequest -> "400" in
   let do_step e = let (r', o) = listener_step !r Z0 e in r := r'; o in
-  let query l a =
+  let query l araw =
     (* connection-oriented listeners: the connection cost is charged when the client's connection is opened *)
-    let key = (l, c15_fmt_addr a) in
+    let a = c15_addr araw in
+    let key = (l, araw) in
     let need_conn = (match l with LmTcp | LQuic -> not (List.mem key !conns) | _ -> false) in
     let ok = if need_conn then (match do_step (AConn (l, a)) with
       | OAccepted -> conns := key :: !conns; true | _ -> false) else true in
@@ -275,9 +277,9 @@ let run_admit (parts : string list) : string =
     else out := name (do_step (AQuery (l, a, false))) :: !out in
   List.iter (fun st ->
     match String.split_on_char ':' st with
-    | ["uq"; a] -> query LmUdp (c15_addr a)
-    | ["tq"; a] -> query LmTcp (c15_addr a)
-    | ["qq"; a] -> query LQuic (c15_addr a)
+    | ["uq"; a] -> query LmUdp a
+    | ["tq"; a] -> query LmTcp a
+    | ["qq"; a] -> query LQuic a
     | ["hc"; a] -> out := name (do_step (AConn (LmHttp, c15_addr a))) :: !out
     | ["hq"; a] -> out := name (do_step (AQuery (LmHttp, c15_addr a, false))) :: !out
     | ["hx"; _] -> out := name (do_step (ABadAddr LmHttp)) :: !out
@@ -373,3 +375,121 @@ let run_limglobalspec (parts : string list) : string =
   end
 
 let () = register "limglobalspec" run_limglobalspec
+
+(* ---- round 6: one long-lived stream connection (kind limstreamspec = respec of limstream) ----
+   case: the limstream case line + t=<a>:<b>,... iout=<impl letters per step>.  Token bucket composed with the
+   per-connection in-flight counter (lsc_step).  Every query of a step arrives at the measured instant a_i; the real arrival
+   is later by at most u_i = (b_i - a_i) minus the known waiting (upstream delay for answered queries, 60 ms stream-close
+   detection for refused quic streams).  Model and real tokens differ by at most rate * 2 * (sum of u) (+1e-6): a limiter
+   decision closer to its threshold is '?', and so is every later decision. *)
+let run_limstreamspec (parts : string list) : string =
+  let f = fields parts in
+  let l = (match fld f "l" with "tcp" -> LmTcp | "tls" -> LTls | "gnet" -> LGnet | "quic" -> LQuic | x -> failwith ("bad l " ^ x)) in
+  let maxc = (let m = ifld f "maxc" in if m <= 0 then 100 else m) in
+  let updelay = ifld f "updelay" * 1000000 in
+  let c = { lc_global = Z0; lc_limit = z_of_int (ifld f "rate"); lc_burst = z_of_int (ifld f "burst");
+            lc_v4 = Z0; lc_v6 = Z0 } in
+  let rate = ifld f "rate" in
+  let steps = split_on ',' (fld f "steps") in
+  let times = List.map (fun s -> match String.split_on_char ':' s with
+    | [a; b] -> (int_of_string a, int_of_string b) | _ -> failwith "bad t") (split_on ',' (fld f "t")) in
+  let iouts = split_on ',' (fld f "iout") in
+  if List.length times <> List.length steps || List.length iouts <> List.length steps then "spec=FAIL:shape" else begin
+  let client = LA4 (n_of_int 0x7F000101) and neigh = LA4 (n_of_int 0x7F000102) in
+  let rl = ref (rl_of_config c Z0) in
+  let infl = [| 0; 0 |] in          (* in-flight counter of the client's / the neighbour's connection *)
+  let usum = ref 0 in
+  let tainted = ref false in
+  let bad = ref None in
+  let out = Buffer.create 64 in
+  let refusal_letter = (match l with LQuic -> 'C' | _ -> 'R') in
+  let si = ref 0 in
+  let arrive who addr now k =
+    (* k queries read one after the other at [now]; the handled ones stay in flight until the step is over *)
+    let letters = Buffer.create 8 in
+    let handled = ref 0 in
+    (* a pipelined burst: the read loop's per-query checks (cost 2) race with the handlers' charges for the forwarded
+       queries (cost 3, result ignored).  The outcome is order-independent only when the bucket holds the whole burst
+       (5 per query); otherwise nothing is compared from here on *)
+    if k > 1 then begin
+      let ample = (match !rl.rl_client with
+        | Some (o, tbl) ->
+          (match step_margin o tbl (EvAllow (z_of_int now, addr, z_of_int (5 * k))) with
+           | Some m -> int_of_z m > rate * 2 * !usum + 1000 | None -> false)
+        | None -> true) in
+      (* ... or when it clearly cannot pay for a single query: every query of the burst is refused *)
+      let empty = (match query_cost l, !rl.rl_client with
+        | Some qc, Some (o, tbl) ->
+          (match step_margin o tbl (EvAllow (z_of_int now, addr, qc)) with
+           | Some m -> int_of_z m < - (rate * 2 * !usum + 1000) | None -> true)
+        | _ -> false) in
+      if not ample && not empty then tainted := true
+    end;
+    for _ = 1 to k do
+      let s = { lsc_rl = !rl; lsc_inflight = z_of_int infl.(who) } in
+      let cap = lsc_cap_hit l (z_of_int maxc) s in
+      (* the limiter's margin, if the limiter is consulted *)
+      let amb = (not cap) && (match query_cost l, !rl.rl_client with
+        | Some qc, Some (o, tbl) ->
+          (match step_margin o tbl (EvAllow (z_of_int now, addr, qc)) with
+           | Some m -> abs (int_of_z m) < rate * 2 * !usum + 1000 | None -> false)
+        | _ -> false) in
+      if amb then tainted := true;
+      let (s', o) = lsc_step l (z_of_int maxc) s (LscArrive (z_of_int now, addr, false)) in
+      rl := s'.lsc_rl; infl.(who) <- int_of_z s'.lsc_inflight;
+      let ch = (match o with Some OAnswered -> incr handled; 'A' | Some _ -> refusal_letter | None -> 'X') in
+      Buffer.add_char letters (if !tainted then '?' else ch)
+    done;
+    for _ = 1 to !handled do
+      let (s', _) = lsc_step l (z_of_int maxc) { lsc_rl = !rl; lsc_inflight = z_of_int infl.(who) } LscDone in
+      infl.(who) <- int_of_z s'.lsc_inflight
+    done;
+    Buffer.contents letters in
+  List.iter2 (fun (st, (a, b)) io ->
+    (* this step's own uncertainty counts for its own decisions *)
+    (match st.[0] with
+     | 'q' | 'n' | 'p' ->
+       let wait = if String.contains io 'A' then updelay
+         else if l = LQuic && String.contains io 'C' then 60000000 else 0 in
+       usum := !usum + max 0 (b - a - wait)
+     | 'c' | 'd' ->
+       (* a plain tcp connect waits 80 ms to see whether the server closes the connection at once *)
+       let wait = if (l = LmTcp || l = LGnet) && io = "A" then 80000000 else 0 in
+       usum := !usum + max 0 (b - a - wait)
+     | _ -> ());
+    let m = (match st.[0] with
+      | 'c' | 'd' ->
+        let addr = if st.[0] = 'c' then client else neigh in
+        (* connection cost: its margin *)
+        let amb = (match conn_cost l, !rl.rl_client with
+          | Some cc, Some (o, tbl) ->
+            (match step_margin o tbl (EvAllow (z_of_int a, addr, cc)) with
+             | Some m -> abs (int_of_z m) < rate * 2 * !usum + 1000 | None -> false)
+          | _ -> false) in
+        if amb then tainted := true;
+        let (r', o) = accept_conn !rl (z_of_int a) l addr in
+        rl := r';
+        let ch = (match o with OAccepted -> "A" | _ -> "C") in
+        if !tainted then "?" else ch
+      | 'q' -> arrive 0 client a 1
+      | 'n' -> arrive 1 neigh a 1
+      | 'p' -> arrive 0 client a (int_of_string (String.sub st 1 (String.length st - 1)))
+      | 's' -> "-"
+      | _ -> failwith ("bad step " ^ st)) in
+    Buffer.add_string out m; Buffer.add_char out ',';
+    if String.length m = String.length io then
+      String.iteri (fun j ch -> if ch <> '?' && ch <> io.[j] && !bad = None then
+        bad := Some (Printf.sprintf "step-%d-%s-query-%d:model-%c-impl-%c" !si st j ch io.[j])) m
+    else if not (String.contains m '?') && !bad = None then bad := Some (Printf.sprintf "step-%d-shape" !si);
+    incr si) (List.combine steps times) iouts;
+  let res = Buffer.contents out in
+  let res = if res = "" then "-" else String.sub res 0 (String.length res - 1) in
+  (* C15_stream_slots_returned, executable: every step is quiescent at its end *)
+  let leak = infl.(0) <> 0 || infl.(1) <> 0 in
+  match !bad with
+  | _ when leak -> Printf.sprintf "out=%s || spec=FAIL:model-counter-not-zero-at-quiescence" res
+  | Some w -> Printf.sprintf "out=%s || spec=FAIL:%s" res w
+  | None -> Printf.sprintf "out=%s || spec=ok" res
+  end
+
+let () = register "limstreamspec" run_limstreamspec
